@@ -19,6 +19,7 @@ type AccessToken struct {
 	RefreshToken          string
 	Revoked               bool
 	IssuedAt              time.Time
+	Tenant                string // the issuer the token was created under ("" unless Store.MultiTenant)
 }
 
 // RefreshToken is a stored refresh token; Token is the string handed to the client.
@@ -27,6 +28,7 @@ type RefreshToken struct {
 	Audience, Scopes, AMR    []string
 	AuthTime, Expiration     time.Time
 	AccessTokenID            string
+	Tenant                   string // the issuer the token was created under ("" unless Store.MultiTenant)
 }
 
 // reqSnap is what the store needs from an op.TokenRequest. It is taken before
@@ -66,29 +68,29 @@ func snapshot(r op.TokenRequest) reqSnap {
 }
 
 // mintAccess stores a new access token; mu is held.
-func (s *Store) mintAccess(q reqSnap, refreshToken string, now time.Time) *AccessToken {
+func (s *Store) mintAccess(tenant string, q reqSnap, refreshToken string, now time.Time) *AccessToken {
 	s.nAT++
 	t := &AccessToken{
 		ID: fmt.Sprintf("at%d", s.nAT), ClientID: q.clientID, Subject: q.subject,
 		Audience: q.audience, Scopes: q.scopes,
-		Expiration: now.Add(s.AccessTTL), RefreshToken: refreshToken, IssuedAt: now,
+		Expiration: now.Add(s.AccessTTL), RefreshToken: refreshToken, IssuedAt: now, Tenant: tenant,
 	}
 	s.tokens[t.ID], s.origin[t.ID] = t, t.ClientID
 	return t
 }
 
-func (s *Store) CreateAccessToken(_ context.Context, request op.TokenRequest) (string, time.Time, error) {
+func (s *Store) CreateAccessToken(ctx context.Context, request op.TokenRequest) (string, time.Time, error) {
 	q := snapshot(request)
 	if err := s.enter("CreateAccessToken", q.kind, q.clientID, q.subject); err != nil {
 		return "", time.Time{}, err
 	}
 	s.mu.Lock()
 	defer s.mu.Unlock()
-	t := s.mintAccess(q, "", s.now())
+	t := s.mintAccess(s.tenant(ctx), q, "", s.now())
 	return t.ID, t.Expiration, nil
 }
 
-func (s *Store) CreateAccessAndRefreshTokens(_ context.Context, request op.TokenRequest, currentRefreshToken string) (string, string, time.Time, error) {
+func (s *Store) CreateAccessAndRefreshTokens(ctx context.Context, request op.TokenRequest, currentRefreshToken string) (string, string, time.Time, error) {
 	q := snapshot(request)
 	if q.kind == "exchange" {
 		currentRefreshToken = "" // as the example: an exchange always starts a new refresh token
@@ -99,9 +101,10 @@ func (s *Store) CreateAccessAndRefreshTokens(_ context.Context, request op.Token
 	s.mu.Lock()
 	defer s.mu.Unlock()
 	now := s.now()
-	rt := &RefreshToken{ClientID: q.clientID, Subject: q.subject, Audience: q.audience, Scopes: q.scopes, AMR: q.amr, AuthTime: q.authTime}
+	tenant := s.tenant(ctx)
+	rt := &RefreshToken{ClientID: q.clientID, Subject: q.subject, Audience: q.audience, Scopes: q.scopes, AMR: q.amr, AuthTime: q.authTime, Tenant: tenant}
 	if currentRefreshToken != "" { // rotation: the old record lives on under a new string
-		old, ok := s.refresh[currentRefreshToken]
+		old, ok := s.refreshOf(tenant, currentRefreshToken)
 		if !ok {
 			return "", "", time.Time{}, fmt.Errorf("%w: unknown", op.ErrInvalidRefreshToken)
 		}
@@ -114,7 +117,7 @@ func (s *Store) CreateAccessAndRefreshTokens(_ context.Context, request op.Token
 	}
 	s.nRT++
 	rt.Token, rt.Expiration = fmt.Sprintf("rt%d", s.nRT), now.Add(s.RefreshTTL)
-	at := s.mintAccess(q, rt.Token, now)
+	at := s.mintAccess(tenant, q, rt.Token, now)
 	rt.AccessTokenID = at.ID
 	s.refresh[rt.Token], s.origin[rt.Token] = rt, rt.ClientID
 	return at.ID, rt.Token, at.Expiration, nil
@@ -158,13 +161,13 @@ func (r refreshRequest) SetCurrentScopes(scopes []string) {
 	get(r, func(t *RefreshToken) bool { t.Scopes = slices.Clone(scopes); return true })
 }
 
-func (s *Store) TokenRequestByRefreshToken(_ context.Context, refreshToken string) (op.RefreshTokenRequest, error) {
+func (s *Store) TokenRequestByRefreshToken(ctx context.Context, refreshToken string) (op.RefreshTokenRequest, error) {
 	if err := s.enter("TokenRequestByRefreshToken", s.tokLabel(refreshToken)); err != nil {
 		return nil, err
 	}
 	s.mu.Lock()
 	defer s.mu.Unlock()
-	t, ok := s.refresh[refreshToken]
+	t, ok := s.refreshOf(s.tenant(ctx), refreshToken)
 	if !ok {
 		return nil, fmt.Errorf("%w: unknown", op.ErrInvalidRefreshToken)
 	}
@@ -174,48 +177,50 @@ func (s *Store) TokenRequestByRefreshToken(_ context.Context, refreshToken strin
 	return refreshRequest{s, t}, nil
 }
 
-// terminate removes all tokens of (userID, clientID) and records the pair; mu is held.
-func (s *Store) terminate(userID, clientID string) {
+// terminate removes all tokens of (userID, clientID) under the tenant and records the pair; mu is held.
+func (s *Store) terminate(tenant, userID, clientID string) {
 	for _, t := range s.tokens {
-		if t.ClientID == clientID && t.Subject == userID {
+		if t.ClientID == clientID && t.Subject == userID && t.Tenant == tenant {
 			t.Revoked = true // the record is kept (like a revoked token) so that later lookups still know its owner
 		}
 	}
 	for tok, t := range s.refresh {
-		if t.ClientID == clientID && t.Subject == userID {
+		if t.ClientID == clientID && t.Subject == userID && t.Tenant == tenant {
 			delete(s.refresh, tok)
 		}
 	}
 	s.Terminated = append(s.Terminated, [2]string{userID, clientID})
+	s.terminatedIn = append(s.terminatedIn, tenant)
 }
 
-func (s *Store) TerminateSession(_ context.Context, userID, clientID string) error {
+func (s *Store) TerminateSession(ctx context.Context, userID, clientID string) error {
 	if err := s.enter("TerminateSession", userID, clientID); err != nil {
 		return err
 	}
 	s.mu.Lock()
 	defer s.mu.Unlock()
-	s.terminate(userID, clientID)
+	s.terminate(s.tenant(ctx), userID, clientID)
 	return nil
 }
 
-func (s *Store) RevokeToken(_ context.Context, tokenOrTokenID, userID, clientID string) *oidc.Error {
+func (s *Store) RevokeToken(ctx context.Context, tokenOrTokenID, userID, clientID string) *oidc.Error {
 	if err := s.enter("RevokeToken", s.tokLabel(tokenOrTokenID), userID, clientID); err != nil {
 		return oidc.ErrServerError().WithParent(err)
 	}
 	s.mu.Lock()
 	defer s.mu.Unlock()
 	foreign := oidc.ErrInvalidClient().WithDescription("token was not issued for this client")
-	if at, ok := s.tokens[tokenOrTokenID]; ok {
+	tenant := s.tenant(ctx)
+	if at, ok := s.tokenOf(tenant, tokenOrTokenID); ok {
 		if at.ClientID != clientID {
 			return foreign
 		}
 		at.Revoked = true
 		return nil
 	}
-	rt, ok := s.refresh[tokenOrTokenID]
+	rt, ok := s.refreshOf(tenant, tokenOrTokenID)
 	if !ok {
-		return nil // neither access nor refresh token: nothing left to revoke
+		return nil // neither access nor refresh token (of this tenant): nothing left to revoke
 	}
 	if rt.ClientID != clientID {
 		return foreign
@@ -227,22 +232,22 @@ func (s *Store) RevokeToken(_ context.Context, tokenOrTokenID, userID, clientID 
 	return nil
 }
 
-func (s *Store) GetRefreshTokenInfo(_ context.Context, clientID, token string) (userID, tokenID string, err error) {
+func (s *Store) GetRefreshTokenInfo(ctx context.Context, clientID, token string) (userID, tokenID string, err error) {
 	if err := s.enter("GetRefreshTokenInfo", clientID, s.tokLabel(token)); err != nil {
 		return "", "", err
 	}
 	s.mu.Lock()
 	defer s.mu.Unlock()
-	rt, ok := s.refresh[token]
+	rt, ok := s.refreshOf(s.tenant(ctx), token)
 	if !ok {
 		return "", "", op.ErrInvalidRefreshToken
 	}
 	return rt.Subject, rt.Token, nil
 }
 
-// liveToken returns the token if it exists and is neither revoked nor expired; mu is held.
-func (s *Store) liveToken(id string) (*AccessToken, error) {
-	t, ok := s.tokens[id]
+// liveToken returns the token if it exists for the tenant and is neither revoked nor expired; mu is held.
+func (s *Store) liveToken(tenant, id string) (*AccessToken, error) {
+	t, ok := s.tokenOf(tenant, id)
 	if !ok || t.Revoked {
 		return nil, errors.New("token is invalid")
 	}
@@ -285,7 +290,11 @@ func (s *Store) ExpireToken(id string) {
 func (s *Store) TokenLive(id string) bool {
 	s.mu.Lock()
 	defer s.mu.Unlock()
-	_, err := s.liveToken(id)
+	t, ok := s.tokens[id]
+	if !ok {
+		return false
+	}
+	_, err := s.liveToken(t.Tenant, id)
 	return err == nil
 }
 
